@@ -41,10 +41,12 @@ AnalyseCase(ev) ==
       EA == ES \o EC
       t  == EmbTol(ev.emb) * ps
       rect == Rectilinear(In)
-      gp == IF "nogp" \in DOMAIN ev THEN FALSE ELSE GP(In, 3)     \* transformed copies (C13) are judged through their base case
+      \* transformed copies (C13) are judged through their base case; for coordinates beyond 128 the crossing-point products of
+      \* Geom!GP exceed TLC's integers: there the harness's certificate (the same conservative test in 128-bit arithmetic) is trusted
+      gp == IF "nogp" \in DOMAIN ev THEN FALSE ELSE IF "gpcert" \in DOMAIN ev THEN ev.gpcert = 1 ELSE GP(In, 3)
       pts == ev.pts
       bb == BBox(In)
-      cells == {<<2 * i + 1, 2 * j + 1>> : i \in bb[1]..(bb[3] - 1), j \in bb[2]..(bb[4] - 1)}
+      cells == IF ps = 2 /\ rect THEN {<<2 * i + 1, 2 * j + 1>> : i \in bb[1]..(bb[3] - 1), j \in bb[2]..(bb[4] - 1)} ELSE {}   \* only the cell-exact (C02) clauses need them
   IN [ subj |-> ev.subj, clip |-> ev.clip, emb |-> ev.emb, ps |-> ps, pts |-> pts, gp |-> gp, rect |-> rect, bb |-> bb,
        ein |-> AllEdges(In), xs |-> XsOf(In), ys |-> YsOf(In),
        ws |-> [i \in 1..Len(pts) |-> Wind(ES, pts[i])],
